@@ -34,6 +34,7 @@ class Recorder:
         self.inject = inject or {}
         self.cur_codemod: str | None = None
         self.file_counter: dict[str, int] = {}
+        self.in_parse = False
 
     def emit(self, ev: str, **kw) -> dict:
         with _lock:
@@ -110,11 +111,27 @@ def install() -> None:
                 include=list(codemod_include or []),
                 exclude=list(codemod_exclude or []),
                 sast=bool(sast_only),
+                inparse=bool(getattr(_active, "in_parse", False)),
                 registry=[[c.id, c.origin] for c in self.codemods],
             )
         return out
 
     registry.CodemodRegistry.match_codemods = match_codemods
+
+    # ---- argument parsing (--describe consults the registry from inside the parser)
+    orig_parse = cm_main.parse_args
+
+    def parse_args(argv, codemod_registry):
+        rec = _active
+        if rec is not None:
+            rec.in_parse = True
+        try:
+            return orig_parse(argv, codemod_registry)
+        finally:
+            if rec is not None:
+                rec.in_parse = False
+
+    cm_main.parse_args = parse_args
 
     # ---- Prefilter
     orig_find = cm_main.find_semgrep_results
